@@ -10,6 +10,8 @@ pub mod monitor;
 pub mod pubsub;
 pub mod replication;
 pub mod config;
+#[cfg(ferrous_verif)]
+pub mod verif;
 
 // Re-export commonly used types
 pub use error::FerrousError;
